@@ -35,8 +35,10 @@ def score_c07(chk: Check, ep: qos.Episode, res: qos.Result) -> None:
             chk.violation("c07.late", f"call {i} finished after {t_done - t0:.6f}s, timeout {bound}", {"episode": ep.to_json()})
         if kind == "ok":
             if txt not in (echo, reply):
-                kind2 = (".foreign-same-header-request" if txt in qos.FOREIGN and txt[:2] in ("RQ", " W")
-                         else ".foreign-same-header-reply" if txt in qos.FOREIGN and txt[:2] in ("RP", " I") else "")
+                # the two recorded findings are about a foreign packet with the very header of this command's echo / reply
+                # (FOREIGN[3] / FOREIGN[1] for pool command 0); any other wrong packet is something else
+                kind2 = (".foreign-same-header-request" if txt == qos.FOREIGN[3] and ep.calls[i]["cmd"] == 0
+                         else ".foreign-same-header-reply" if txt == qos.FOREIGN[1] and ep.calls[i]["cmd"] == 0 else "")
                 chk.violation("c07.wrong_packet" + kind2, f"call {i} ({q!r}) returned {txt!r}", {"episode": ep.to_json()})
         else:
             if "ProtocolError" not in txt:
@@ -125,6 +127,13 @@ def score_c09(chk: Check, ep: qos.Episode, res: qos.Result) -> None:
     if not res.deadlock:
         if res.final_state not in ("IsInIdle", "Inactive"):
             chk.violation("c09.not_idle", f"at rest the sender is {res.final_state}", {"episode": ep.to_json()})
+        # idle - or inactive if (and only if) disconnected
+        connected = not res.conn or res.conn[-1][1] == "made"
+        if res.final_state == "IsInIdle" and not connected:
+            chk.violation("c09.idle_while_disconnected", "the transport is gone (connection_lost, no reconnect) yet the sender is IsInIdle, not Inactive: "
+                          "it accepts and dequeues commands for a transport that does not exist", {"episode": ep.to_json()})
+        if res.final_state == "Inactive" and connected:
+            chk.violation("c09.inactive_while_connected", "the transport is connected yet at rest the sender is Inactive", {"episode": ep.to_json()})
         if res.final_inflight:
             chk.violation("c09.inflight_residue", f"at rest a command is still in flight: {res.final_inflight}", {"episode": ep.to_json()})
         if res.lock_held:
@@ -164,6 +173,21 @@ def run_prop(chk: Check, which: str) -> None:
         if k < 2:
             chk.sample({"episode": ep.to_json(), "writes": [(round(t, 6), f[:40]) for t, f in res.writes][:8],
                         "outcomes": {i: (round(o[0], 6), o[1], o[2][:50]) for i, o in res.outcomes.items()}, "final": res.final_state})
+    if which == "C07":
+        # every foreign packet of the list while each command waits for its echo (0.01 s) / for its reply (0.1 s)
+        for cmd in range(qos.N_PLAIN):
+            for k in range(len(qos.FOREIGN)):
+                for at in (0.01, 0.1):
+                    for wfr, mode in ((True, False), (None, None)):
+                        ep = qos.Episode()
+                        ep.mode = mode
+                        ep.calls = [{"t": 0.0, "cmd": cmd, "prio": 0, "max_retries": 0, "timeout": 5.0, "wfr": wfr}]
+                        ep.tx[(cmd, 1)] = {"echo": 0.05, "reply": 0.3, "dup": False, "fail": False}
+                        ep.events = [(at, "foreign", k)]
+                        res = qos.run_episode(ep)
+                        chk.evaluations += 1
+                        chk.nontrivial.add(json.dumps(ep.to_json(), sort_keys=True))
+                        score_c07(chk, ep, res)
     if which == "C08":
         # long queues of mixed priorities behind a command whose echoes are lost, callers giving up while queued, late arrivals
         for k in range(6000 if thorough else 500):
